@@ -484,3 +484,59 @@ Definition meta_parse_c (now : N) (b : list N) : option minfo :=
       Some (mkMinfo p 0 (u32_at b 2) (u32_at b 6) (u32_at b 10) 0 (u16_at b 22) (byte_at b 24)
                     (u32_at b 14) (u16_at b 18) (byte_at b 20) (byte_at b 21) 0 0 0)
   else None.
+
+(* ---------------------------------------------------------------- receiver-side hand-off with back-pressure *)
+(* deliverSegmentToSession -> recvChan -> runInputLoop -> Session.inputData (stream branch) -> recvQueue.
+   [h_pending]: payloads of segments the underlay has parsed for this session and that are not yet in
+   recvQueue (recvChan and the segment the input loop is holding), in order.  recvQueue is bounded
+   (segmentTreeCapacity); the input loop WAITS for room (waitForRecvQueueSpace) - TCP has no retransmission. *)
+Record hst : Set := mkH { h_pending : list (list N); h_rd : rdst; h_closed : bool }.
+
+(* waitForRecvQueueSpace: Some true = there is room; Some false = the session is closed (the ONLY reason to
+   give up); None = still waiting (the caller stays blocked, back-pressure builds up behind it) *)
+Definition wait_space (cap : nat) (st : hst) : option bool :=
+  if h_closed st then Some false
+  else if (length (rd_queue (h_rd st)) <? cap)%nat then Some true else None.
+
+(* one attempt of the input loop to hand the oldest pending segment to recvQueue *)
+Definition h_deliver (cap : nat) (st : hst) : hst :=
+  match h_pending st with
+  | [] => st
+  | p :: t =>
+    match wait_space cap st with
+    | Some true => mkH t (mkRd (rd_unread (h_rd st)) (rd_queue (h_rd st) ++ [p])) (h_closed st)
+    | Some false => mkH t (h_rd st) (h_closed st)     (* closed session: inputData skips the delivery *)
+    | None => st                                       (* blocked *)
+    end
+  end.
+
+Inductive hev : Set :=
+| HParsed (p : list N)   (* the underlay parsed one more segment of this session *)
+| HDeliver               (* the input loop runs (possibly still blocked) *)
+| HRead (k : nat)        (* the application calls Read with a buffer of k bytes *)
+| HClose.                (* the session is closed *)
+
+Fixpoint run_h (cap : nat) (st : hst) (evs : list hev) : list (list N) * hst :=
+  match evs with
+  | [] => ([], st)
+  | HParsed p :: t => run_h cap (mkH (h_pending st ++ [p]) (h_rd st) (h_closed st)) t
+  | HDeliver :: t => run_h cap (h_deliver cap st) t
+  | HRead k :: t => let (o, rd') := read1 k (h_rd st) in
+                    let (l, st') := run_h cap (mkH (h_pending st) rd' (h_closed st)) t in (o :: l, st')
+  | HClose :: t => run_h cap (mkH (h_pending st) (h_rd st) true) t
+  end.
+
+Definition h_flat (st : hst) : list N := rd_flat (h_rd st) ++ concat (h_pending st).
+Fixpoint parsed_of (evs : list hev) : list (list N) :=
+  match evs with [] => [] | HParsed p :: t => p :: parsed_of t | _ :: t => parsed_of t end.
+Fixpoint no_close (evs : list hev) : bool :=
+  match evs with [] => true | HClose :: _ => false | _ :: t => no_close t end.
+
+(* the seeded variant (for contrast only): a wait that gives up while the session is open *)
+Definition h_deliver_bounded_wait (cap : nat) (st : hst) : hst :=
+  match h_pending st with
+  | [] => st
+  | p :: t => if (length (rd_queue (h_rd st)) <? cap)%nat
+              then mkH t (mkRd (rd_unread (h_rd st)) (rd_queue (h_rd st) ++ [p])) (h_closed st)
+              else mkH t (h_rd st) (h_closed st)
+  end.
